@@ -228,3 +228,48 @@ def exc4(cfg):
     res.count('release sites', nrel)
     res.floor('release sites', 12)
     return res
+
+
+def exc5(cfg):
+    """EXC-5: the exception reaches the caller - no noexcept barrier between a fault point and the operation's entry"""
+    res = RuleResult('EXC-5', 'an allocation failure or length error inside insert / remove / QSBR resume / thread start / a deferred-deallocation request REACHES THE CALLER: no function on a call path from such an entry point to an allocation-capable call or a throw is declared noexcept (a noexcept function through which the exception would have to pass turns it into std::terminate)')
+    an = effectflow.Effects(cfg, prune_callee=lambda s: any(s.startswith(p) for p in PRUNED))
+    may = an.may_alloc_set()
+    cg, meta = cfg.callgraph()
+    roots = [f.sig for f in entries(cfg)]
+    res.count('operation entry points', len(roots))
+    seen = set(roots)
+    work = list(roots)
+    while work:
+        x = work.pop()
+        for y in cg.get(x, ()):
+            # failure handlers (assertion failed, cannot happen: noreturn, they abort) are not paths of the operation
+            if y not in seen and not any(y.startswith(p) for p in PRUNED) and not (meta.get(y) or {}).get('noreturn') and not y.startswith(('unodb::detail::msg_stacktrace_abort', 'unodb::detail::assert_failure', 'unodb::detail::cannot_happen', 'unodb::detail::crash')):
+                seen.add(y)
+                work.append(y)
+    n = 0
+    root = an.cfg_root()
+    for f in cfg.functions:
+        if not f.blocks or f.sig not in seen or f.sig not in may:
+            continue
+        if not (f.file or '').startswith(root):
+            continue
+        n += 1
+        res.functions.add(f.sig)
+        ok = not f.d.get('nothrow')
+        if not ok:
+            # which fault point sits below it?
+            below = []
+            for b, i, e in f.elements():
+                if is_assert_elem(e):
+                    continue
+                if e.get('k') == 'throw':
+                    below.append('throw')
+                elif e.get('k') in ('call', 'new') and e.get('cid') is not None and (f.callee_sig(e) or '') in may:
+                    below.append(sh(f.callee_sig(e))[:60])
+            res.find(f, f.loc, '%s is declared noexcept but lies on a call path from an insert / remove / resume / thread-start entry point to a fault point (%s): when that allocation fails (or the length error is thrown) the exception cannot pass - std::terminate is called instead of the exception reaching the caller with the index unchanged' % (sh(f.name)[:70], ', '.join(sorted(set(below))[:2]) or 'allocation below'), key='EXC-5:%s' % (f.short or ''), config=cfg.name)
+        res.ob(ok, {'rule': 'EXC-5', 'function': sh(f.name)[:100], 'site': fileline(f.loc), 'verdict': 'may propagate' if ok else 'VIOLATION: noexcept'} if (not ok or n % 7 == 0) else None)
+    res.count('functions between entry points and fault points', n)
+    res.floor('operation entry points', 12)
+    res.floor('functions between entry points and fault points', 30)
+    return res
